@@ -3,6 +3,7 @@ package main
 
 import (
 	"fmt"
+	"os"
 	"go/types"
 	"strings"
 	"time"
@@ -83,6 +84,13 @@ func (e *Engine) checkObligation(kind, label string, prop *T) {
 		e.obligs = append(e.obligs, ob)
 		return
 	}
+	if e.failedLabels[kind+":"+label] {
+		// a replayable counterexample for this obligation already exists: only record the verdict on this path
+		r, _, _ := e.solve([]*T{Not(prop)}, false, e.cfg.AssertTimeoutMs, nil)
+		ob.Verdict, ob.Solver, ob.Ms = r.Res, r.Solver, time.Since(t0).Milliseconds()
+		e.obligs = append(e.obligs, ob)
+		return
+	}
 	r, names, rounds := e.solveConcrete([]*T{Not(prop)}, e.cfg.AssertTimeoutMs)
 	if rounds > 0 {
 		ob.Site = fmt.Sprintf("concretisation rounds: %d", rounds)
@@ -92,6 +100,7 @@ func (e *Engine) checkObligation(kind, label string, prop *T) {
 	ob.Ms = time.Since(t0).Milliseconds()
 	if r.Res == "sat" {
 		ob.Model = e.modelOf(r, names)
+		e.failedLabels[kind+":"+label] = true
 	}
 	e.obligs = append(e.obligs, ob)
 }
@@ -146,6 +155,9 @@ func init() {
 		e.pc = append(e.pc, c)
 		if e.pos >= len(e.decisions) { // not replaying a prefix that was already checked
 			if r, _, _ := e.solve(nil, false, e.cfg.BranchTimeoutMs, nil); r.Res == "unsat" {
+				if e.trace {
+					fmt.Fprintf(os.Stderr, "  [assume infeasible p%d] %s\n", e.pathNo, c.String())
+				}
 				panic(pathEnd{})
 			}
 		}
